@@ -1622,6 +1622,7 @@ type pendingReq struct {
 	stored0        []string
 	stored1        []string
 	events         []issuerEvent
+	rsp            response
 }
 
 // startPending posts c in the background and returns once the request waits for its leaf.
@@ -1647,16 +1648,18 @@ func (d *driver) startPending(e *logEnv, c *subCase) *pendingReq {
 	return p
 }
 
-func (d *driver) finishPending(e *logEnv, p *pendingReq) response {
+// awaitPending waits for the answer (the request's metric is counted by then)
+func (d *driver) awaitPending(p *pendingReq) {
 	select {
-	case r := <-p.ch:
-		d.issuerLine(p.issuers, p.known0, p.stored0, p.events, p.known1, p.stored1, strings.Contains(string(r.body), "failed to upload issuer"))
-		d.finishCase(e, p.c, p.now, r)
-		return r
+	case p.rsp = <-p.ch:
 	case <-time.After(20 * time.Second):
 		abort("pending: request %s did not return after its round was sequenced", p.c.desc)
 	}
-	panic("unreachable")
+}
+
+func (d *driver) reportPending(e *logEnv, p *pendingReq) {
+	d.issuerLine(p.issuers, p.known0, p.stored0, p.events, p.known1, p.stored1, strings.Contains(string(p.rsp.body), "failed to upload issuer"))
+	d.finishCase(e, p.c, p.now, p.rsp)
 }
 
 // otherChain: the same submission as c (same leaf) through another certificate path (root last)
@@ -1685,15 +1688,15 @@ func (d *driver) pendingDedup(n int) {
 
 	// one hierarchy per job, with second certificates of its CAs
 	type tree struct {
-		X, Y                 *authority // two accepted roots
-		X1, X1b, X1y         *authority // an intermediate: issued by X, re-issued by X, cross-signed by Y
-		X2, X2b              *authority // under X1 (X2b: re-issued; its parent pointer is X1b)
-		PX, PXb              *authority // precertificate signing certificate under X1 (PXb under X1b)
-		pathA, pathB, pathC  []*authority
-		issuer               *authority
-		pre                  bool
-		held, rootA, rootB   bool
-		kind                 string
+		X, Y                *authority // two accepted roots
+		X1, X1b, X1y        *authority // an intermediate: issued by X, re-issued by X, cross-signed by Y
+		X2, X2b             *authority // under X1 (X2b: re-issued; its parent pointer is X1b)
+		PX, PXb             *authority // precertificate signing certificate under X1 (PXb under X1b)
+		pathA, pathB, pathC []*authority
+		issuer              *authority
+		pre                 bool
+		held, rootA, rootB  bool
+		kind                string
 	}
 	kinds := []string{"reissued-intermediate", "cross-signed-intermediate", "reissued-deeper", "precert-direct", "precert-signing-reissued", "precert-signing-cross"}
 	var jobs []*tree
@@ -1736,11 +1739,9 @@ func (d *driver) pendingDedup(n int) {
 		abort("pending: SetRootsFromPEM failed: %v", err)
 	}
 	e.rootsDER = roots
-	round := func() {
+	round := func() error {
 		time.Sleep(3 * time.Millisecond)
-		if err := e.log.VerifSequence(context.Background()); err != nil {
-			abort("pending: sequencing failed: %v", err)
-		}
+		return e.log.VerifSequence(context.Background())
 	}
 	for _, t := range jobs {
 		s := spec{issuer: t.issuer, naPos: 2, ep: "chain", includeRoot: t.rootA}
@@ -1767,13 +1768,13 @@ func (d *driver) pendingDedup(n int) {
 		if got := e.log.VerifPoolLen(); got != 1 {
 			abort("pending: pool length %d after the first submission, expected 1", got)
 		}
-		var seqDone chan struct{}
+		var seqDone chan error
 		release := func() {}
 		if t.held { // start the round and hold it at its first upload: the leaf is in inSequencing now
 			var held <-chan struct{}
 			held, release = be.holdSequencer()
-			seqDone = make(chan struct{})
-			go func() { defer close(seqDone); round() }()
+			seqDone = make(chan error, 1)
+			go func() { seqDone <- round() }()
 			select {
 			case <-held:
 			case <-time.After(20 * time.Second):
@@ -1787,17 +1788,25 @@ func (d *driver) pendingDedup(n int) {
 		for _, w := range pB.stored1 {
 			storedBeforeRound = storedBeforeRound && w == "same"
 		}
+		var err error
 		if t.held {
 			release()
-			<-seqDone
+			err = <-seqDone
 		} else {
-			round()
+			err = round()
 		}
-		e.queueLowLabels(4)
-		rA := d.finishPending(e, pA)
-		rB := d.finishPending(e, pB)
-		d.finishPending(e, pA2)
-		d.finishPending(e, pC)
+		if err != nil {
+			abort("pending: sequencing failed: %v", err)
+		}
+		all := []*pendingReq{pA, pB, pA2, pC}
+		for _, q := range all {
+			d.awaitPending(q)
+		}
+		e.queueLowLabels(len(all))
+		for _, q := range all {
+			d.reportPending(e, q)
+		}
+		rA, rB := pA.rsp, pB.rsp
 		if rA.code == 200 && rB.code == 200 && bytes.Equal(rA.body, rB.body) && e.treeSize() == size0+1 {
 			d.stats["pending:deduplicated-while-pending"]++ // the circumstance was produced
 			if storedBeforeRound {
@@ -1812,8 +1821,8 @@ func (d *driver) pendingDedup(n int) {
 	d.stats["mon:mon_noleaf"]++
 	size := e.treeSize()
 	res := "holds"
-	if size != int64(len(e.indexes)) || size != int64(len(jobs)) {
-		res = fmt.Sprintf("FAILS:tree size %d after %d distinct leaves (%d indexes handed out): a resubmission through another chain was not deduplicated or left a leaf", size, len(jobs), len(e.indexes))
+	if size != int64(len(e.indexes)) {
+		res = fmt.Sprintf("FAILS:tree size %d after %d distinct leaves, %d indexes handed out", size, len(jobs), len(e.indexes))
 	}
 	d.emit("mon_noleaf|%s|final|%d|=>|%s", e.name, size, res)
 	d.monIssuersAll(e)
